@@ -47,8 +47,8 @@ ASSUMPTIONS = ["Python float sums of 1.0/k are compared with the model's exact r
                "feature ids are non-empty strings that do not start with '#' (read as a header line by merge_files)",
                "a record typed unique at the extractor's level has at most one distinct feature (list(set)[0] is hash-order "
                "otherwise); the assigner and the resolver never produce another shape",
-               "combine_counts: feature ids are not in pandas' default NA set ('NA', 'null', 'nan', 'None', 'N/A', '' ...): such an id "
-               "is read as a missing key (finding reported in docs/C02.md); every table lists a feature id once (pandas forms the "
+               "combine_counts: feature ids are non-empty (ids in pandas' default NA set - 'NA', 'null', 'nan', 'None', 'N/A' ... - "
+               "are inside the domain since fix 896585b and generated); every table lists a feature id once (pandas forms the "
                "cross product of duplicated keys); printed values have at most 15 significant digits (float round trip of read_csv)",
                "pandas writes the rows of an outer join sorted by key (code-point order) - behaviour of the installed pandas, "
                "checked by the correspondence in row order",
